@@ -174,6 +174,41 @@ def memo_rule(ctx, fns, RID, what):
                             bad = ('on the first call of a thread `%s` is still its initial 0, so an input with %s == 0 skips the refresh and the zero-initialised '
                                    'cache is used as if it had been computed (no validity flag, and 0 is a value of the key)' % (names[ks.declid], _expand(fn, e).text()))
                             dec = True
+            if not dec and rest and all(dj[0] == 'atom' for dj in rest):
+                # every undecided disjunct compares ONE input expression x with constants once the statics stand for their initial values: the refresh is
+                # skipped exactly for the x that make all of them false.  Inputs are instants / counts: only x >= 0 is in the domain.
+                envl = {dd_: q.Lin(v_) for dd_, v_ in init_env.items()}
+                lo1, hi1, xs1, okform = -q.INF, q.INF, None, True
+                for dj in rest:
+                    a = dj[1].strip(casts=True)
+                    if a.k != 'BinaryOperator' or a.op not in ('<', '>', '<=', '>='):
+                        okform = False
+                        break
+                    dl = q.linear(a.children[0], env=envl, sym=lambda y: _expand(fn, y).text()) - q.linear(a.children[1], env=envl, sym=lambda y: _expand(fn, y).text())
+                    if len(dl.t) != 1 or list(dl.t.values())[0] not in (1, -1):
+                        okform = False
+                        break
+                    xn = list(dl.t)[0]
+                    if xs1 is not None and xn != xs1:
+                        okform = False
+                        break
+                    xs1 = xn
+                    sgn = dl.t[xn]
+                    op, c = (a.op, -dl.c) if sgn == 1 else ({'<': '>', '>': '<', '<=': '>=', '>=': '<='}[a.op], dl.c)
+                    # the disjunct is FALSE:  not (x op c)
+                    if op == '<':
+                        lo1 = max(lo1, c)
+                    elif op == '<=':
+                        lo1 = max(lo1, c + 1)
+                    elif op == '>':
+                        hi1 = min(hi1, c)
+                    elif op == '>=':
+                        hi1 = min(hi1, c - 1)
+                if okform and xs1 is not None:
+                    dec = True
+                    if max(lo1, 0) <= hi1:
+                        bad = ('on the first call of a thread (statics at their initial values) the refresh is skipped for %s in [%s, %s], so the initial cache contents '
+                               'are used as if they had been computed' % (xs1, max(lo1, 0), hi1))
             if not dec:
                 raise AnalysisBroken('%s: refresh condition `%s` is not decided for the first call (statics at their initial values)' % (fn.q, ifn.child('cond').text()))
         # ---- staleness
@@ -211,13 +246,20 @@ def memo_rule(ctx, fns, RID, what):
                             if y.strip(casts=True).k == 'DeclRefExpr' and y.strip(casts=True).declid == _kd:
                                 return 'K#'
                             return 'X#' if ye.text() == _xs else ye.text()
+                        # a second carried static stored on refresh as key + c (`day_end = day_start + 86400`) stands for K# + c
+                        envk = {}
+                        for (dd2, n2, kind2, val2) in stores:
+                            if dd2 != kd and kind2 == 'assign' and val2 is not None:
+                                l2 = q.linear(val2, sym=sym)
+                                if set(l2.t) == {'K#'} and l2.t['K#'] == 1:
+                                    envk[dd2] = l2
                         for dj in _disjuncts(guard):
                             if dj[0] != 'atom':
                                 continue
                             a = dj[1].strip(casts=True)
                             if a.k != 'BinaryOperator' or a.op not in ('<', '>', '<=', '>='):
                                 continue
-                            dl = q.linear(a.children[0], sym=sym) - q.linear(a.children[1], sym=sym)
+                            dl = q.linear(a.children[0], env=envk, sym=sym) - q.linear(a.children[1], env=envk, sym=sym)
                             if dl.t == {'X#': 1, 'K#': -1}:
                                 op, c = a.op, -dl.c
                             elif dl.t == {'X#': -1, 'K#': 1}:
